@@ -18,23 +18,23 @@ import (
 // lands at a tape-chosen position.
 
 type drainReq struct {
-	id          int
-	routedStep  int
-	routedAt    time.Duration
-	deliveredStep int // handed to the server's connection; 0 = never
-	handlerRuns int
+	id              int
+	routedStep      int
+	routedAt        time.Duration
+	deliveredStep   int // handed to the server's connection; 0 = never
+	handlerRuns     int
 	handlerDoneStep int
-	replies     int
-	replyStep   int
-	dur         time.Duration
+	replies         int
+	replyStep       int
+	dur             time.Duration
 }
 
 type drainProc struct {
 	h *drainHarness
 }
 
-func (p *drainProc) AddMiddleware(frugal.ServiceMiddleware)            {}
-func (p *drainProc) Annotations() map[string]map[string]string        { return nil }
+func (p *drainProc) AddMiddleware(frugal.ServiceMiddleware)    {}
+func (p *drainProc) Annotations() map[string]map[string]string { return nil }
 func (p *drainProc) Process(in, out *frugal.FProtocol) error {
 	ctx, err := in.ReadRequestHeader()
 	if err != nil {
